@@ -7,12 +7,24 @@
 
 pub mod util;
 
+#[cfg(any(feature = "c01", feature = "c02"))]
+pub mod c01;
+#[cfg(any(feature = "c04", feature = "c05", feature = "c19"))]
+pub mod c04;
+#[cfg(feature = "c05")]
+pub mod c05;
 #[cfg(feature = "c08")]
 pub mod c08;
+#[cfg(feature = "c09")]
+pub mod c09;
+#[cfg(feature = "c15")]
+pub mod c15;
 #[cfg(feature = "c17")]
 pub mod c17;
 #[cfg(feature = "c18")]
 pub mod c18;
+#[cfg(feature = "c19")]
+pub mod c19;
 #[cfg(feature = "c20")]
 pub mod c20;
 
